@@ -260,7 +260,7 @@ pub fn spec() -> PropertySpec {
         id: "C10",
         level: "fault_enumeration",
         rule: "Each run: the real server with a real per-run cache directory (tmpfs) and 1-4 concurrent uploads (declared and undeclared length above the in-memory threshold, 65 B .. 150 KiB) whose life is cut by a fault sequence drawn from: client FIN / RST / abrupt close at an offset class {0, 1, half, 8191..8193, 65535..65537, L-1, L, L+1}; disk write failure (ENOSPC, EIO) at an offset, close failure, create failure, short writes; body over the handler's limit; handler outcome after receipt {normal, 5xx, drop, panic, fetch-body-again}; cache directory removed at a tape-chosen step; permit revoked mid-upload; connection-task cancellation at a tape-chosen step (only destructors run). Oracle reads the REAL directory: per-step invariant (a file may exist only while some request is still being received or handled) and, once every connection has closed, an empty directory; destructor panics are task panics. non-trivial = a temp file existed during the run.",
-        scenarios: vec![Scenario { name: "c10.uploads", property: "C10", func: scenario, runs_quick: 40_000, runs_thorough: 1_500_000, doc: "interrupted uploads" }],
+        scenarios: vec![Scenario { name: "c10.uploads", property: "C10", func: scenario, runs_quick: 250_000, runs_thorough: 6_000_000, doc: "interrupted uploads" }],
         required_probes: vec![
             "probe.temp_file_existed", "probe.two_temp_files_at_once", "fault.client_rst_mid_upload", "fault.client_fin_mid_upload", "fault.client_close_mid_upload", "fault.fs_write", "fault.fs_close", "fault.fs_create",
             "fault.cache_dir_removed", "fault.task_cancelled", "fault.permit_revoked_mid_upload", "job.panicked",
